@@ -234,6 +234,7 @@ class IoWorld:
         self.nontrivial = False
         self.cells = set()
         self.recover = set()  # paths whose next acknowledged write+read must pass (after a fault)
+        self.read_how: Dict[str, Tuple[str, str]] = {}  # generator memory: how each path was read last
         self.held: List[Dict[str, Any]] = []  # results of earlier judged reads kept by a client and looked at again later
 
     def close(self):
@@ -251,6 +252,11 @@ class IoWorld:
             else:
                 out[name] = "<dir>"
         return out
+
+    @staticmethod
+    def fs_digest(snap: Dict[str, str]) -> str:
+        """Run-digest of a directory snapshot; HDF5-based files (.hdf5, .mnc) embed creation times, so only their names count."""
+        return digest_bytes(repr(sorted((k, "-" if k.endswith((".mnc", ".hdf5")) else v) for k, v in snap.items())).encode())
 
     @staticmethod
     def changed(before: Dict[str, str], after: Dict[str, str]) -> set:
@@ -453,7 +459,7 @@ class _Ops:
         touched = self.changed(before, after)
         self.invalidate(touched, keep=name)
         rec = Record(name, kind, expected, hdr, set(), "deepali", True, op.get("axes"), flow_t, compress, dict(desc))
-        out = StepResult("ok", digest_bytes(repr(sorted(after.items())).encode()))
+        out = StepResult("ok", self.fs_digest(after))
         foreign = {t for t in touched if not t.startswith(self.stem_of(name) + ".")}
         if st == "faulted":
             self.c["faults"]["failed_write"] += 1
@@ -501,7 +507,7 @@ class _Ops:
         touched = self.changed(before, after)
         self.invalidate(touched, keep=name)
         self.c["faults"]["second_writer"] += 1
-        out = StepResult("ok", digest_bytes(repr(sorted(after.items())).encode()))
+        out = StepResult("ok", self.fs_digest(after))
         if st != "ok":
             self.rec.pop(name, None)
             self.c["probes"]["sitk_write_unsupported"] += 1
@@ -844,6 +850,12 @@ class _Gen:
                     entries += [("meta_bytes", 1), ("meta_reader", 2 if sc["faults"]["short_io"] else 0.5)]
                 op["entry"] = rng.weighted(entries)
                 op["form"] = rng.weighted([("str", 4), ("path", 2), ("uri", 0 if op["entry"] == "Grid.from_file" else 1), ("rel", 1)])
+                # read - overwrite - read again through the very same entry point and path form: what a reader that
+                # remembers something about a path (a cache, a kept handle) gets wrong
+                seen = self.read_how.get(name)
+                if seen and rng.chance(0.5) and any(e == seen[0] for e, _ in entries):
+                    op["entry"], op["form"] = seen
+                self.read_how[name] = (op["entry"], op["form"])
                 if op["entry"] in ("from_sitk", "FlowField.from_sitk"):
                     op["form"] = "str"
                 if op["entry"] in ("Image.read", "read_image", "FlowField.read") and rng.chance(0.4):
